@@ -10,7 +10,7 @@
   increasing user and non-decreasing design values, the default example carries the axis default, and the axis
   minimum / maximum are the first / last example. `a.axis? = some ax` is the axis fontc builds from it.
 -/
-import FontcProofs.PlmQ2
+import FontcProofs.PlmQ3
 
 namespace Fontc.C08
 open Fontc Fontc.Plm Fontc.Avar Fontc.PlmProofs
@@ -98,6 +98,20 @@ theorem avar_quantised_bound_nodes (a : AxisDef) (h : a.WellFormed) (ax : Axis) 
             designNormalize a.designMin a.designDefault a.designMax n.2) ≤ 1 / 32768 :=
   wf_quantised_nodes a h ax hax hdistinct n hn
 
+/-- **avar_quantised_bound** (every coordinate). What a rasteriser computes — default normalisation, rounding to
+    F2Dot14, the emitted F2Dot14 segment map — differs from the source's design-normalised coordinate by at most
+    `2⁻¹⁵ · (1 + 2 L)`, where `L` is a Lipschitz constant (largest slope) of the exact map on `[-1, 1]`:
+    one half unit for the rounded to-coordinates, `L` half units for the rounded from-coordinates and `L` for the
+    rounded input. Hypothesis `hdistinct`: rounding did not merge two `fromCoordinate`s. -/
+theorem avar_quantised_bound (a : AxisDef) (h : a.WellFormed) (ax : Axis) (hax : a.axis? = some ax)
+    (hdistinct : strictFrom (qpts (segmentMap ax)) = true) (L : Rat) (hL : 0 ≤ L)
+    (hLip : ∀ s t, -1 ≤ s → s ≤ 1 → -1 ≤ t → t ≤ 1 →
+      ratAbs (avarApply (segmentMapExact ax) s - avarApply (segmentMapExact ax) t) ≤ L * ratAbs (s - t))
+    (u : Rat) (hmin : a.min ≤ u) (hmax : u ≤ a.max) :
+    ratAbs (avarApply (qpts (segmentMap ax)) (qv (defaultNormalize a.min a.default a.max u)) -
+            designNormalize a.designMin a.designDefault a.designMax (ax.conv.toDesign u)) ≤ 1 / 32768 * (1 + 2 * L) :=
+  wf_quantised_bound a h ax hax hdistinct L hL hLip u hmin hmax
+
 /-- **fvar_bounds.** The fvar axis record is the user bounds converted to 16.16: ordered; within half a
     16.16 unit of the bounds when they are in the 16.16 range; exactly the bounds when they are on the grid. -/
 theorem fvar_bounds (a : AxisDef) (h : a.WellFormed) (ax : Axis) (hax : a.axis? = some ax) :
@@ -154,5 +168,22 @@ example : ∃ ax, sample.axis? = some ax ∧
   have : sample.axis?.map (fun ax => ax.conv.toDesign 750) = some (39 / 2) := by decide +kernel
   rw [hax] at this
   exact Option.some.inj this
+
+/-- non-vacuity of `avar_quantised_bound`: an unmapped axis (identity map, `L = 1`) -/
+def plain : AxisDef := ⟨[(100, 100), (400, 400), (700, 700)], 1, 100, 400, 700⟩
+
+theorem plain_wf : plain.WellFormed :=
+  ⟨by decide, ⟨400, by decide⟩, ⟨100, by decide⟩, ⟨700, by decide⟩⟩
+
+example : ∃ ax, plain.axis? = some ax ∧
+    ratAbs (avarApply (qpts (segmentMap ax)) (qv (defaultNormalize plain.min plain.default plain.max 333)) -
+            designNormalize plain.designMin plain.designDefault plain.designMax (ax.conv.toDesign 333)) ≤ 1 / 32768 * (1 + 2 * 1) := by
+  have hex : ∃ ax, plain.axis? = some ax ∧ segmentMapExact ax = defaultSegmentMap ∧
+      strictFrom (qpts (segmentMap ax)) = true := by decide +kernel
+  obtain ⟨ax, hax, hseg, hstrict⟩ := hex
+  refine ⟨ax, hax, avar_quantised_bound plain plain_wf ax hax hstrict 1 (by decide) ?_ 333 (by decide) (by decide)⟩
+  intro s t _ _ _ _
+  rw [hseg, avarApply_ident _ s (by decide), avarApply_ident _ t (by decide)]
+  simp
 
 end Fontc.C08
